@@ -5,7 +5,9 @@
 (* (M) an instance is an MDP record of lib/MDP.tla plus                                  *)
 (*       Z[s][a][t]   1 iff next_state_dist(s, a) lists t with probability 0             *)
 (*       Z0[s]        1 iff initial_state_dist() lists s with probability 0              *)
-(*       explicit     1 iff the state / action lists are given explicitly (all states)   *)
+(*       explicit     1 iff the state list is given explicitly: it is then `order`, a     *)
+(*                    permutation of all states, IN THAT ORDER (not re-sorted)          *)
+(*       aexplicit    1 iff the action list is given explicitly: it is then `aorder`      *)
 (*       cuts         the max_states values explored for reachable_states (INF = -1)     *)
 (*       plan         1 iff the optimal values are wanted (planning-result clause)       *)
 (*     The discount GN/GD may be 0 (GN = 0): discount_rate = 0 is a legal, falsy value.  *)
@@ -195,10 +197,10 @@ ReachEnd ==
   /\ phase' = IF cut = INF THEN "list" ELSE "cutdone"
   /\ UNCHANGED <<iid, cut, frontier, visited, lst, T, Rw, Am, der, rb, rbd>>
 
-\* state_list: the explicit list, or the reachable set in sorted order (abstract order = label order)
+\* state_list: the explicit list as given, or the reachable set in sorted order (abstract order = label order)
 MkList ==
   /\ phase = "list"
-  /\ lst' = IF M.explicit = 1 THEN SeqOfSet(St(M), M.N) ELSE SeqOfSet(visited, M.N)
+  /\ lst' = IF M.explicit = 1 THEN M.order ELSE SeqOfSet(visited, M.N)
   /\ phase' = "rows"
   /\ UNCHANGED <<iid, cut, frontier, visited, T, Rw, Am, der, rb, rbd>>
 
@@ -228,12 +230,16 @@ Rebuild ==
 Next == (\E s \in St(M) : Pop(s)) \/ ReachEnd \/ MkList \/ FillRow \/ Derive \/ Rebuild
 Spec == Init /\ [][Next]_vars
 
+\* action_list: the explicit list as given, or the actions available in some listed state
+ActionList(m, L) == IF m.aexplicit = 1 THEN m.aorder
+                    ELSE SeqOfSet(UNION {Avail(m, s) : s \in L}, m.K)
+
 \* ------------------------------------------------------------------ emission (pipeline A)
 SetsOf(m) == [i \in 1..Len(m.cuts) |-> CutResults(m, m.cuts[i])]
 ViewRecord(m) ==
   [iid |-> iid, kind |-> "views",
    reach |-> visited,
-   lst |-> lst,
+   lst |-> lst, alst |-> ActionList(m, LSet),
    T |-> FullT(m), R |-> FullR(m), A |-> m.avail, sar |-> FullSAR(m), p0 |-> m.p0,
    lsar |-> [i \in 1..Len(lst) |-> der.sar[lst[i]]],
    absall |-> AbsAll(m), dead |-> DeadEnd(m), cannot |-> CannotReach(m),
@@ -274,7 +280,7 @@ CutSemantics ==
 ListOk ==
   (phase \in {"rows", "derived", "done"}) =>
      /\ \A i \in 1..Len(lst) : \A j \in 1..Len(lst) : i # j => lst[i] # lst[j]
-     /\ IF M.explicit = 1 THEN LSet = St(M) ELSE LSet = Reach(M)
+     /\ IF M.explicit = 1 THEN lst = M.order /\ LSet = St(M) ELSE LSet = Reach(M)
 \* (P5) the arrays hold the numbers the functions return; rows of unavailable actions are zero
 ArraysAgree ==
   (phase \in {"rows", "derived", "done"}) =>
@@ -307,6 +313,8 @@ InstancesWellFormed ==
   /\ \A s \in St(M), a \in Ac(M), t \in St(M) : M.P[s][a][t] >= 0
   /\ SumTo([s \in St(M) |-> M.p0[s]], M.N) = M.ID
   /\ M.GN >= 0 /\ M.GN <= M.GD
+  /\ Len(M.order) = M.N /\ Range(M.order) = St(M)
+  /\ Len(M.aorder) = M.K /\ Range(M.aorder) = Ac(M)
   /\ \A s \in St(M), a \in Ac(M), t \in St(M) : M.Z[s][a][t] = 1 => M.P[s][a][t] = 0
   /\ \A s \in St(M) : M.Z0[s] = 1 => M.p0[s] = 0
 \* (P8) at discount 0 the general oracle (policy enumeration + linear solve) degenerates to the myopic formula
